@@ -15,6 +15,7 @@ import YalafiVerif.Generated.Tables
 import YalafiVerif.Proofs.Plain
 import YalafiVerif.Proofs.PlainSpecial
 import YalafiVerif.Generated.WF
+import YalafiVerif.Generated.Init
 namespace Yalafi
 
 theorem C06_longest_match (T : Tables) (h : T.WFScan) (rest : Str) (t : Str)
@@ -103,5 +104,41 @@ theorem C06_specials_follow_table (T : PTables) (o : Options) (fs : FS) (thresh 
 theorem C06_specials_tables_current :
     Generated.theTables.toTables.WFScan ∧ (∀ e ∈ Generated.theTables.special, hasNl e.2 = false) :=
   ⟨Generated.wfScan, by decide +kernel⟩
+
+/-- the fixed-point theorem for the CURRENT code: tables translated from /repo, default options,
+    parser initialisation evaluated by the kernel (`Generated.initParser_default`) -/
+theorem C06_plain_fixed_point_current (src : Str) (thresh : Nat)
+    (h : ∀ c ∈ src, inertChar Generated.theTables Generated.stDefault c = true)
+    (hf : src.length + 2 ≤ Generated.bigFuel) :
+    ∃ r, tex2txt Generated.theTables Generated.bigFuel src Generated.defaultOptions false thresh [] = .ok r ∧
+      r.txt = src ∧ r.pos = (List.range src.length).map (· + 1) ∧ r.unknowns = [] ∧
+      r.diags = Generated.stDefault.diags :=
+  C06_plain_fixed_point Generated.theTables Generated.defaultOptions [] thresh src Generated.bigFuel
+    Generated.stDefault rfl rfl rfl rfl Generated.initParser_default h hf
+
+/-- … and these ASCII characters are inert for it (letters, digits, blank, line break, tab and the
+    punctuation that starts no special sequence): the premise is satisfiable on the real tables -/
+theorem C06_inert_ascii_current :
+    ∀ c ∈ "ABCDEFGHIJKLMNOPQRSTUVWXYZabcdefghijklmnopqrstuvwxyz0123456789 \n\t.,;:!?()/*=+<>|@[]\"".toList,
+      inertChar Generated.theTables Generated.stDefault c = true := by
+  decide +kernel
+
+theorem C06_specials_follow_table_current (src : Str) (thresh : Nat)
+    (h : specText Generated.theTables Generated.stDefault src = true)
+    (hlines : linesOK Generated.theTables.toTables src = true)
+    (hf : src.length + 2 ≤ Generated.bigFuel) :
+    ∃ r, tex2txt Generated.theTables Generated.bigFuel src Generated.defaultOptions false thresh [] = .ok r ∧
+      r.txt = (refSpecial Generated.theTables.toTables src 0).1 ∧
+      r.pos = (refSpecial Generated.theTables.toTables src 0).2.map (· + 1) ∧
+      r.unknowns = [] ∧ r.diags = Generated.stDefault.diags :=
+  C06_specials_follow_table Generated.theTables Generated.defaultOptions [] thresh src Generated.bigFuel
+    Generated.stDefault C06_specials_tables_current.1 C06_specials_tables_current.2 rfl rfl rfl rfl
+    Generated.initParser_default h hlines hf
+
+/-- a concrete text with special sequences satisfies the premises on the real tables -/
+theorem C06_specials_example_current :
+    specText Generated.theTables Generated.stDefault "A -- B~C, 100\\% sure: ``x'' --- y.".toList = true ∧
+    linesOK Generated.theTables.toTables "A -- B~C, 100\\% sure: ``x'' --- y.".toList = true := by
+  decide +kernel
 
 end Yalafi
